@@ -168,6 +168,11 @@ func (m *Manager) handlePotentialData(ctx context.Context, bz []byte, daHeight u
 		m.logger.Debug("ignoring empty signed data, daHeight: ", daHeight)
 		return
 	}
+	if signedData.Metadata == nil {
+		// Height() below dereferences Metadata; the syncer drops metadata-less data anyway (sync.go)
+		m.logger.Debug("ignoring signed data without metadata, daHeight: ", daHeight)
+		return
+	}
 
 	// Early validation to reject junk data
 	if !m.isValidSignedData(&signedData) {
